@@ -40,7 +40,8 @@ WEIGHTS = ["none", "frac", "zeros"]
 REQUIRED_REACH = ["partition_count", "twin", "table_name", "tabbook", "ca_as_0th", "numsum",
                   "class:table=CAT", "class:table=MR", "class:table=ARR", "class:square",
                   "class:table=NUMARR",
-                  "class:corpus", "filtercols", "class:augmented"]
+                  "class:corpus", "filtercols", "class:augmented",
+                  "class:augmented_missing_not_last"]
 BATCH = 20
 UNIT_TIMEOUT_S = 40
 
@@ -87,8 +88,13 @@ def make_case(unit):
             mset = g.pick([("mean",), ("mean", "sum"), ("sum",)])
         elif facets[-1][0] == "mr" and g.chance(0.8):
             mset = tuple(mset) + ("overlap",)  # overlap-corrected pairwise tests per table
+        if "numarr" not in template and w is not None and "overlap" not in mset and \
+                gen.stratum(ID, i, "sq", 2):
+            # squared weights (effective bases of the pairwise tests): one more cube-level
+            # array that has to be cut along the table dimension like the counts
+            mset = tuple(mset) + ("sq_weights",)
         spec = sim.CubeSpec(facets, w, mset, g.num(N) if (
-            set(mset) - {"overlap"} and "numarr" not in template) else None)
+            set(mset) - {"overlap", "sq_weights"} and "numarr" not in template) else None)
         if g.chance(0.4):
             from .c05 import add_display_transforms
 
